@@ -3,6 +3,7 @@ import OmplModel.Proofs.GridRun
 import OmplModel.Proofs.GridCoords
 import OmplModel.Proofs.DiscProps
 import OmplModel.Proofs.DiscReal
+import OmplModel.Proofs.KPIECE1
 /-!
 # C13 — grid discretizations track cells, neighbours, borders and components exactly
 
@@ -260,5 +261,166 @@ example : (0 : ℝ) < importance ({ motions := [0], coverage := 2, selections :=
   (importance_pos _ 4 (by norm_num) (by norm_num) (by norm_num)).1
 
 end DiscretizationReal
+
+/-! ## KPIECE1 (geometric) on top of the Discretization model
+
+Model `OmplModel.KPIECE1` (Model/KPIECE1.lean), generic over the state type, `Num α`, and every oracle (`bounds`,
+`valid`, projection coordinate, goal distance, three-argument `checkMotion` with `lastValid`).  "Every script" = every
+list of per-iteration draws (the two draws of `selectMotion`, the goal-bias draw, the sampled states); its length is the
+interruption point.  `hcoord`: the projection has `dim` coordinates. -/
+section Kpiece
+open OmplModel.Disc OmplModel.KPIECE1 OmplModel.PlannerReport
+variable {S α : Type} [Num α] [HasLog α]
+
+theorem kinv_of_solve (cfg : KPIECE1.Cfg S α) (hcoord : ∀ s, (cfg.coord s).length = cfg.P.dim) (starts : Array S)
+    (script : List (Draw S α)) :
+    KPIECE1.TreeInv cfg starts (solve cfg starts script).tree ∧
+      DInv cfg.P (solve cfg starts script).disc (liveFrom cfg 0 (solve cfg starts script).tree.toList) := by
+  have hinit := initState_inv cfg hcoord starts
+  unfold solve
+  simp only
+  split
+  · exact hinit
+  · have := loop_inv cfg hcoord starts script ⟨(initState cfg starts).1.1, (initState cfg starts).1.2, none, none, cfg.inf⟩
+      ⟨hinit.1, hinit.2, fun j h => by simp at h, fun i h => by simp at h⟩
+    split <;> exact ⟨this.tree, this.disc⟩
+
+/-- **Tree invariant**, for every configuration, start set and script (hence every interruption point): every root is
+a problem-definition start that satisfies the bounds and is valid; every other motion's parent was created earlier and
+the edge is justified by `Link`: the validator was asked about the motion from the parent to a sampled state, and the
+child is the state the validator left in `xstate` -- after a `true` answer (the whole motion is vouched for), or after a
+`false` answer whose `lastValid.second` exceeds `minValidPathFraction_`, in which case the child is `lastValid.first`
+and the validator vouches for the motion only up to that state. -/
+theorem kpiece_tree_inv (cfg : KPIECE1.Cfg S α) (hcoord : ∀ s, (cfg.coord s).length = cfg.P.dim) (starts : Array S)
+    (script : List (Draw S α)) : KPIECE1.TreeInv cfg starts (solve cfg starts script).tree :=
+  (kinv_of_solve cfg hcoord starts script).1
+
+/-- **KPIECE1 obeys the Discretization protocol**: after every script the discretization invariant holds for "motion
+`i` is stored under the projection coordinate of its state"; in particular every motion of the tree sits in exactly the
+cell of its coordinate, no cell is empty, and `size_` is the number of motions. -/
+theorem kpiece_disc_inv (cfg : KPIECE1.Cfg S α) (hcoord : ∀ s, (cfg.coord s).length = cfg.P.dim) (starts : Array S)
+    (script : List (Draw S α)) :
+    let r := solve cfg starts script
+    DInv cfg.P r.disc (liveFrom cfg 0 r.tree.toList) ∧
+    (∀ i nd, r.tree[i]? = some nd → ∀ e ∈ r.disc.cdata, (i ∈ e.2.motions ↔ e.1 = cfg.coord nd.state)) ∧
+    (∀ e ∈ r.disc.cdata, e.2.motions ≠ []) ∧ r.disc.size = r.tree.size := by
+  intro r
+  have h := (kinv_of_solve cfg hcoord starts script).2
+  refine ⟨h, ?_, fun e he => (h.mot e he).2, ?_⟩
+  · intro i nd hi e he
+    have hm : (i, cfg.coord nd.state) ∈ liveFrom cfg 0 r.tree.toList :=
+      (mem_liveFrom cfg 0 _ _ _).2 ⟨i, nd, by simpa using hi, by omega, rfl⟩
+    exact mem_cell_iff h hm he
+  · rw [h.size]
+    have : ∀ (k : Nat) (l : List (KPIECE1.Node S)), (liveFrom cfg k l).length = l.length := by
+      intro k l; induction l generalizing k with
+      | nil => rfl
+      | cons a r ih => simp [liveFrom, ih]
+    rw [this, Array.length_toList]
+
+/-- **`selectMotion` is only called on a non-empty discretization**, and it answers a motion of the tree: unless the
+run ends with `INVALID_START` (before the loop), the state reached after every script holds at least one motion, and
+the next iteration's `selectMotion` (any draws within `halfNormalInt`'s range contract) returns a motion index of the
+tree together with the cell of its coordinate -- the two "unreachable" branches of `step` are dead code. -/
+theorem kpiece_select_nonempty (cfg : KPIECE1.Cfg S α) (hcoord : ∀ s, (cfg.coord s).length = cfg.P.dim)
+    (starts : Array S) (script : List (Draw S α)) (hst : (solve cfg starts script).status ≠ .invalidStart)
+    (u : α) (pick : Nat → Nat) (hpick : ∀ n, 0 < n → pick n < n) :
+    let r := solve cfg starts script
+    0 < r.disc.size ∧
+    ∃ m x nd, (select cfg.P (countIteration r.disc) u pick).2 = some (m, x) ∧ r.tree[m]? = some nd ∧
+      x = cfg.coord nd.state := by
+  intro r
+  have h := (kinv_of_solve cfg hcoord starts script).2
+  have hsz : 0 < r.tree.size := by
+    show 0 < (solve cfg starts script).tree.size
+    unfold solve at hst ⊢
+    simp only at hst ⊢
+    split
+    · rename_i h0; rw [if_pos h0] at hst; exact absurd rfl hst
+    · rename_i h0
+      have := loop_size cfg script ⟨(initState cfg starts).1.1, (initState cfg starts).1.2, none, none, cfg.inf⟩
+      split <;> exact Nat.lt_of_lt_of_le (Nat.pos_of_ne_zero h0) this
+  have hne : liveFrom cfg 0 r.tree.toList ≠ [] := by
+    cases hl : r.tree.toList with
+    | nil => simp [← Array.length_toList, hl] at hsz
+    | cons a t => simp [liveFrom]
+  have hd1 : DInv cfg.P (countIteration r.disc) (liveFrom cfg 0 r.tree.toList) :=
+    ⟨h.ginv, h.sync, h.mot, h.cov, h.size, h.lnd⟩
+  obtain ⟨m, x, hs, hm⟩ := select_returns_live hd1 hne u pick hpick
+  obtain ⟨i, nd, h1, h2, h3⟩ := (mem_liveFrom cfg 0 _ _ _).1 hm
+  refine ⟨?_, m, x, nd, hs, ?_, h3⟩
+  · rw [h.size]
+    cases hl : liveFrom cfg 0 r.tree.toList with
+    | nil => exact absurd hl hne
+    | cons a t => simp
+  · have : m = i := by omega
+    subst this; simpa using h1
+
+/-- what a truthful report looks like -/
+structure KReal (cfg : KPIECE1.Cfg S α) (starts : Array S) (status : Status) (path : List S) (approx : Bool) (dif : α) :
+    Prop where
+  /-- non-empty, first state is a valid in-bounds start of the problem definition -/
+  start : ∃ s0, path.head? = some s0 ∧ KPIECE1.ValidStart cfg starts s0
+  /-- consecutive states are justified tree edges -/
+  edges : KPIECE1.Chain (KPIECE1.Link cfg) path
+  /-- the reported difference is the goal distance at the last state, and the approximate flag is set exactly when
+  the goal is not satisfied there -/
+  goal : ∃ last, path.getLast? = some last ∧ dif = cfg.goalDist last ∧
+    (approx = false ↔ cfg.goalDist last < cfg.threshold)
+  exact : status = .exactSolution ↔ approx = false
+  approximate : status = .approximateSolution ↔ approx = true
+
+/-- **KPIECE1 reports only real solutions**: for every configuration, start set and script (seed, interruption
+point): a solution status means `addSolutionPath` was called with a path that is `KReal`; any other status (TIMEOUT,
+INVALID_START) means it was not called. -/
+theorem kpiece_solution_real (cfg : KPIECE1.Cfg S α) (hcoord : ∀ s, (cfg.coord s).length = cfg.P.dim)
+    (starts : Array S) (script : List (Draw S α)) :
+    ((solve cfg starts script).status.toBool = true →
+        ∃ path approx dif, (solve cfg starts script).added = some (path, approx, dif) ∧
+          KReal cfg starts (solve cfg starts script).status path approx dif) ∧
+      ((solve cfg starts script).status.toBool = false → (solve cfg starts script).added = none) := by
+  have hinit := initState_inv cfg hcoord starts
+  unfold solve
+  simp only
+  split
+  · exact ⟨fun h => by simp [Status.toBool] at h, fun _ => rfl⟩
+  · have hinv := loop_inv cfg hcoord starts script ⟨(initState cfg starts).1.1, (initState cfg starts).1.2, none, none, cfg.inf⟩
+      ⟨hinit.1, hinit.2, fun j h => by simp at h, fun i h => by simp at h⟩
+    generalize (loop cfg ⟨(initState cfg starts).1.1, (initState cfg starts).1.2, none, none, cfg.inf⟩ script) = r at hinv
+    split
+    · next i hsol =>
+      refine ⟨fun _ => ?_, fun h => by simp [Status.ofFlags, Status.toBool] at h⟩
+      refine ⟨_, _, _, rfl, ?_⟩
+      cases hs : r.1.solution with
+      | some j =>
+        simp only [hs, Option.some.injEq] at hsol
+        subst hsol
+        obtain ⟨nd, h1, h2, h3⟩ := hinv.sol j hs
+        obtain ⟨l, e1, e2, e3, e4⟩ := KPIECE1.pathTo_spec cfg starts r.1.tree hinv.tree (j + 1) j nd [] h1 (by omega)
+        simp only [List.append_nil] at e1
+        rw [e1]
+        exact ⟨e2, e3, ⟨nd.state, e4, h3, by simp [h2]⟩, by simp [Status.ofFlags], by simp [Status.ofFlags]⟩
+      | none =>
+        simp only [hs] at hsol
+        obtain ⟨nd, h1, h2, h3⟩ := hinv.approx i hsol
+        obtain ⟨l, e1, e2, e3, e4⟩ := KPIECE1.pathTo_spec cfg starts r.1.tree hinv.tree (i + 1) i nd [] h1 (by omega)
+        simp only [List.append_nil] at e1
+        rw [e1]
+        exact ⟨e2, e3, ⟨nd.state, e4, h3 hs, by simp [h2]⟩, by simp [Status.ofFlags], by simp [Status.ofFlags]⟩
+    · exact ⟨fun h => by simp [Status.ofFlags, Status.toBool] at h, fun _ => rfl⟩
+
+/-! non-vacuity: both kinds of justified edge exist for any validator answer of that kind, and `hcoord` is satisfiable -/
+example (cfg : KPIECE1.Cfg S α) (a x : S) (h : (cfg.checkMotion a x).1 = true) :
+    KPIECE1.Link cfg a (cfg.checkMotion a x).2.1 := ⟨x, rfl, Or.inl h⟩
+example (cfg : KPIECE1.Cfg S α) (a x : S) (h : cfg.minValidFrac < (cfg.checkMotion a x).2.2) :
+    KPIECE1.Link cfg a (cfg.checkMotion a x).2.1 := ⟨x, rfl, Or.inr h⟩
+example (cfg : KPIECE1.Cfg S α) (h : cfg.coord = fun _ => List.replicate cfg.P.dim 0) :
+    ∀ s, (cfg.coord s).length = cfg.P.dim := by intro s; simp [h]
+/-- with no start handed out the run is `INVALID_START` and nothing is reported -/
+example (cfg : KPIECE1.Cfg S α) (script : List (Draw S α)) :
+    (solve cfg #[] script).status = .invalidStart ∧ (solve cfg #[] script).added = none := by
+  constructor <;> rfl
+
+end Kpiece
 
 end OmplModel.Props.C13
